@@ -127,6 +127,7 @@ func (s *Server) serve(ctx context.Context, listener net.Listener, handler Modbu
 	defer l.Close()
 
 	// listener must be known to Shutdown and Addr before anyone can learn (from OnServeFunc) that server is up
+	simBeforeLock(&s.mu, true)
 	s.mu.Lock()
 	s.listener = l
 	s.mu.Unlock()
